@@ -4,7 +4,7 @@
 // ======================================================================================
 /// the repository refers to the traits as `visit::Trait`
 pub mod visit {
-    pub use super::{GraphBase, GraphRef, IntoNeighbors, VisitMap, Visitable, NodeIndexable, NodeCount, NodeCompactIndexable, EdgeCount, IntoNodeIdentifiers, GetAdjacencyMatrix, EdgeRef, Data, IntoEdgeReferences, IntoNeighborsDirected, IntoEdges, IntoEdgesDirected};
+    pub use super::*;
 }
 
 //@ item src/graph_impl/mod.rs | - | impl<Ix: IndexType> IndexType for NodeIndex<Ix>
